@@ -42,7 +42,7 @@ def histories(ck):
 
 
 def run(ck):
-    ck.prove(["AsModel.Theorems.C14"])
+    ck.prove(["AsModel.Theorems.C14", "AsModel.Theorems.C14Parse"])
     ck.build_harness("inproc")
     res = t2.run(ck)
     mm = t2.record(ck, res, ("nodes", "body", "validity", "status", "locations", "wellformed"), "node definitions, node references and syntactic validity")
